@@ -173,5 +173,5 @@ func TestVerifC05(t *testing.T) {
 		s.Sched = []int{-dt, 0, 0, 0, 0, -1, 1, 1, 1, 1}
 		w.Replay(level, s)
 	}
-	t.Logf("C05 vci harness: %d runs, %d goroutine dumps", w.Runs, w.Dumps)
+	t.Logf("C05 vci harness: %d runs, %d goroutine dumps, %d diverged re-executions repeated", w.Runs, w.Dumps, storage.VerifC05Diverged)
 }
